@@ -965,7 +965,9 @@ def gen_sized(rng, main):
         elif r < 0.8:
             do(("set_subtree", main, base + b"[%d]" % i))
         elif r < 0.85:
-            do(("copy", "q", main))
+            if not isvc(main):
+                # (the driver cannot copy out of a vnacal_t's root)
+                do(("copy", "q", main))
         elif r < 0.92:
             do(("count", main, base if base else b"."))
         else:
